@@ -137,7 +137,10 @@ def _run(res, work):
     if rep:
         pr = rep.get("macro_fallback_probe") or {}
         if pr.get("concurrent_differences", 0) > 0:
-            if pr.get("differences_as_model_predicts") and pr.get("sequential_repeats_identical"):
+            listed = any(f["id"] == "macro_fallback_shared_scratch_files" for f in common.known_findings(PROP))
+            # the finding was repaired in /repo (63f9f962, scratch names unique per generation): it is no longer
+            # listed, so a difference is a violation again
+            if listed and pr.get("differences_as_model_predicts") and pr.get("sequential_repeats_identical"):
                 res.known("macro_fallback_shared_scratch_files: with --clang-macro-fallback concurrent generations share <dir>/.macro_eval.c and -precompile.h.pch; "
                           "%d of %d concurrent in-process generations of one header lost macro constants or failed (%s), sequential repeats identical — as C11_scratch_file_interleaving_witness predicts"
                           % (pr["concurrent_differences"], pr["concurrent_runs"], pr.get("example", "")))
